@@ -192,6 +192,16 @@ type UnionDecl struct {
 	Cases   []UCase
 }
 
+// carriesFunc: some case has a function payload.
+func (u *UnionDecl) carriesFunc() bool {
+	for _, c := range u.Cases {
+		if c.Payload != nil && c.Payload.K == "func" {
+			return true
+		}
+	}
+	return false
+}
+
 // TypeDecl is a record or a union; And marks continuation of a `type … and …` group.
 type TypeDecl struct {
 	Rec   *RecDecl
